@@ -26,6 +26,8 @@ def items(tier):
             for strat in (None, "by_label"):
                 out.append({"kind": "single_pass", "sc": sc, "ec": ec, "P": P, "N": N, "strat": strat})
             out.append({"kind": "proportion", "sc": sc, "ec": ec, "P": P, "N": N})
+    out.append({"kind": "proportion", "sc": "pos", "ec": "pos", "P": 3, "N": 1})      # sizes >= 2 are needed to tell with/without replacement apart
+    out.append({"kind": "proportion", "sc": "neg", "ec": "neg", "P": 1, "N": 3})
     out.append({"kind": "replacement", "sc": "pos", "ec": "pos", "P": 2, "N": 2, "strat": "by_label", "smoothing": True})
     if tier == "thorough":      # symbolic drawn sizes x quantile/std terms: ~12 min
         out.append({"kind": "replacement", "sc": "neg", "ec": "pos", "P": 2, "N": 1, "strat": None, "smoothing": True})
@@ -167,6 +169,10 @@ def run_proportion(h, sc, ec, P, N):
         # without replacement: no source score is used more often than it occurs in the source
         h.check(f"{nm}: drawn without replacement (multiplicities bounded by the source's)",
                 h.And([h.le(h.count([h.eq(x, s, 0) for x in got]), h.count([h.eq(y, s, 0) for y in src])) for s in src]))
+    if h.mode == "sym":
+        ch = _log_find(h.rng_log(), "choice")
+        h.check("proportion sampling asks the RNG for draws without replacement from each class's scores",
+                len(ch) == 2 and all(c["args"]["replace"] is False and c["args"]["p"] is None for c in ch) and ch[0]["args"]["a"] == ("array", P) and ch[1]["args"]["a"] == ("array", N))
     h.check("easy counts scaled by the ratio and truncated", h.And(h.le(B.nb_easy_pos, ratio * kp), ratio * kp < B.nb_easy_pos + 1, h.le(B.nb_easy_neg, ratio * kn), ratio * kn < B.nb_easy_neg + 1))
     try:
         S.bootstrap_sample(_config(h, sampling_method="proportion"))
